@@ -137,6 +137,16 @@ CHECKS = {
         "note": "NaN/inf centre frequencies are not generated; valid sample_rate assignment on baseband signals is outside the property (it speaks of construction and library operations)",
         "technique": "property-based testing: constructor/assignment fuzzing against a contract model; contract invariant on all library outputs",
     },
+    "C17": {
+        "text": "Exhaustive enumeration of all elementwise NumPy ufuncs (nin<=2, nout<=2) x 7 dtypes x operand arrangements (signal alone; two signals with "
+                "different metadata; signal with array, 0-d, broadcast array, scalar, dimensionless Quantity in both orders; out= and out=tuple; Dask) x "
+                "classes admitting the result, each compared bit for bit with the ufunc on the raw arrays and required to carry the first signal operand's "
+                "type and metadata; Hypothesis-generated operator expressions (22 operators, mixed classes, either side) and in-place chains (buffer identity "
+                "through earlier views, dtype, refused casts); np.asarray/np.array with dtype/copy; reduce/accumulate/outer/at/reduceat/matmul refused.",
+        "ref": "DESIGN.md section 4 C17",
+        "note": "`quantity ==/!= signal` and comparisons whose right operand is a subclass instance are excluded (astropy / Python reflect them before the library is consulted)",
+        "technique": "property-based testing: exhaustive ufunc enumeration + Hypothesis operator/in-place histories, differential against NumPy on .data",
+    },
     "C18": {
         "text": "Generated-input search against an independent table of all 7-smooth numbers below 2^64: exhaustive for 0 <= N < 10^6 (10^7 thorough), "
                 "at s-1, s, s+1 and the midpoint for the 7-smooth s < 2^62 (all of them in the thorough tier), Hypothesis integers over [0, 2^62), and "
